@@ -150,6 +150,10 @@ def synth_stream(rng):
             toks.append({"type": "Comment", "data": " \n x \t "})
         elif r < 0.58:
             toks.append({"type": "Doctype", "name": "html", "publicId": " a  b ", "systemId": None})
+        elif r < 0.6:
+            toks.append({"type": "Entity", "name": rng.choice(["amp", "nbsp"])})
+        elif r < 0.61:
+            toks.append({"type": "SerializeError", "data": " a  b "})
         elif r < 0.75:
             toks.append({"type": "SpaceCharacters", "data": "".join(rng.choice(WS) for _ in range(rng.randint(1, 4)))})
         else:
